@@ -18,7 +18,7 @@
    refines_u a b           a = b, or a = Err Missing, or b = Err Missing                                              *)
 From Coq Require Import ZArith QArith Bool List.
 Require Import QV.C03.Model QV.C03.Spec QV.C03.Proofs QV.C03.Proofs2 QV.C03.Proofs3 QV.C03.Proofs4 QV.C03.Proofs5
-               QV.C03.Proofs6 QV.C03.Proofs7 QV.C03.Proofs8 QV.C03.Proofs9 QV.C03.Proofs10.
+               QV.C03.Proofs6 QV.C03.Proofs7 QV.C03.Proofs8 QV.C03.Proofs9 QV.C03.Proofs10 QV.C03.Proofs11.
 
 Theorem C03_construct_wf : forall u, uok u -> wf (construct u).
 Proof. exact construct_wf. Qed.
@@ -132,6 +132,45 @@ Theorem C03_missing_tight : forall u values drop b, uok u ->
   none_missing u (lookup (SDict values)) drop = false -> create_program u values drop <> Ok b.
 Proof. exact user_missing_tight. Qed.
 Print Assumptions C03_missing_tight.
+
+(* ---- round 6: the guard made exact.  guard_C03_function_zero_tight looks only at the obligations up to and including
+   the first failing one (Spec.upto_fail); it is false exactly when the obligation that decides the ideal verdict is a
+   function expression (function atom / time dependent ParallelChannelPT value) whose missing name vanishes
+   symbolically -- the known finding itself, nothing more.  Refinement, (c only-if) and (d) hold under it. ---- *)
+Theorem C03_guard_exact : forall p rho drop,
+  guard_C03_function_zero_tight p rho drop = false <->
+  exists a e r b, obs p rho drop = a ++ OF e r :: b /\ first_fail (map ob_stat a) = None /\ vanishes r e = true.
+Proof. exact guard_tight_false_iff. Qed.
+Print Assumptions C03_guard_exact.
+
+Theorem C03_guard_exact_weaker : forall p rho drop,
+  guard_C03_function_zero p rho drop = true -> guard_C03_function_zero_tight p rho drop = true.
+Proof. exact guard_tight_weaker. Qed.
+Print Assumptions C03_guard_exact_weaker.
+
+Theorem C03_refines_exact_guard : forall u values drop, uok u ->
+  guard_C03_function_zero_tight u (lookup (SDict values)) drop = true ->
+  refines (create_program u values drop) (verdict u (lookup (SDict values)) drop).
+Proof. exact user_refines_tight. Qed.
+Print Assumptions C03_refines_exact_guard.
+
+Theorem C03_refines_exact_guard_scope : forall p s drop, wf p ->
+  guard_C03_function_zero_tight p (lookup s) drop = true -> refines (run p s drop) (verdict p (lookup s) drop).
+Proof. intros p s drop H. exact (run_ref_tight p H s drop). Qed.
+Print Assumptions C03_refines_exact_guard_scope.
+
+Theorem C03_missing_exact_guard : forall u values drop b, uok u ->
+  guard_C03_function_zero_tight u (lookup (SDict values)) drop = true ->
+  none_missing u (lookup (SDict values)) drop = false -> create_program u values drop <> Ok b.
+Proof. exact user_missing_exact. Qed.
+Print Assumptions C03_missing_exact_guard.
+
+Theorem C03_constraints_sound_exact_guard : forall u values drop b, uok u ->
+  guard_C03_function_zero_tight u (lookup (SDict values)) drop = true -> create_program u values drop = Ok b ->
+  (forall c r, In (c, r) (visible u (lookup (SDict values)) drop) -> ceval r c = Some true)
+  /\ none_missing u (lookup (SDict values)) drop = true /\ b = plays u (lookup (SDict values)) drop.
+Proof. exact user_sound_exact. Qed.
+Print Assumptions C03_constraints_sound_exact_guard.
 
 (* ---- the helper functions that the operational model AND the specification use (Model.v: zrange, ren_drop, kept,
    adrop) characterised on their own: loop index values = Python's range; which inner channels a renaming MappingPT
